@@ -394,6 +394,242 @@ def canon (h : Heap) (roots : List Nat) : String :=
   "r=" ++ ",".intercalate (roots.map (numOf order)) ++ " " ++
     ";".intercalate (order.map fun x => match h[x]? with | some n => showNode order n | none => "?")
 
+/-! ### Structured canonical form and the DECIDED isomorphism test (`canonEq`)
+
+`canon` above is text: good for comparing with what the harness prints for the REAL objects, but text equality is only
+a proxy of `Iso` (printing is not injective for arbitrary class / scalar strings, and `canonFuel` is a constant).
+`canonEq` is the same depth-first numbering kept as data, with a fuel that provably suffices for every heap, and with
+the closedness check built in. `Props/C04Canon.lean` proves `canonEq h r h' r' = true ↔ Iso h r h' r'` for ALL heaps and
+root lists with no side condition: dangling references below a root make both sides false; addresses are list positions,
+so there are no duplicate addresses by construction (the driver's parser rejects case lines whose oids are not 0,1,2,…). -/
+
+/-- the successors of address `x` (none for an address outside the heap) -/
+def tg (h : Heap) (x : Nat) : List Nat := match h[x]? with | some n => n.targets | none => []
+
+/-- a number of stack pops that always suffices: every root is popped once, every reference cell is pushed at most
+once because a node is expanded at most once (`Props/C04Canon.lean: dfs_closed`, `dfs_fuel_stable`) -/
+def dfsFuel (h : Heap) (roots : List Nat) : Nat :=
+  roots.length + ((List.range h.length).map fun x => (tg h x).length).sum
+
+/-- nodes reachable from the roots in order of first visit — complete for every heap -/
+def reach (h : Heap) (roots : List Nat) : List Nat := dfsOrder h (dfsFuel h roots) roots []
+
+/-- depth-first number of `x` (`order.length` if it was not visited) -/
+def idxOf (order : List Nat) (x : Nat) : Nat := order.findIdx (· == x)
+
+def Ref.renum (order : List Nat) : Ref → Ref
+  | .none => .none
+  | .one t => .one (idxOf order t)
+  | .many ts => .many (ts.map (idxOf order))
+
+/-- what the property observes of one node: class and scalars, reference fields with depth-first numbers -/
+def cnode (h : Heap) (order : List Nat) (x : Nat) : Option (Label × List Ref) :=
+  (h[x]?).map fun n => (n.lab, n.refs.map (Ref.renum order))
+
+/-- canonical form as data: numbers of the roots, observed nodes in depth-first order -/
+def canonForm (h : Heap) (roots : List Nat) : List Nat × List (Option (Label × List Ref)) :=
+  let order := reach h roots
+  (roots.map (idxOf order), order.map (cnode h order))
+
+/-- every reachable address holds a node (no dangling reference below a root, no dangling root) -/
+def closedFrom (h : Heap) (roots : List Nat) : Bool := (reach h roots).all fun x => (h[x]?).isSome
+
+/-- **the decided property relation**: rooted-graph isomorphism preserving classes, scalars, field order, aliasing
+and cycles. (Closedness of the right-hand side follows from equal forms, so it is tested on the left only.) -/
+def canonEq (h : Heap) (roots : List Nat) (h' : Heap) (roots' : List Nat) : Bool :=
+  decide (canonForm h roots = canonForm h' roots') && closedFrom h roots
+
+/-- what the driver prints as `model=`: the text of the result graph, made to agree with the DECIDED relation — it
+equals the `spec=` text exactly when `canonEq` holds (`C04_verdict`). The middle branch (equal text, not isomorphic)
+can only be a printing collision; it is reported as such instead of being passed as agreement. -/
+def verdictText (h : Heap) (roots : List Nat) (out : Heap) (roots' : List Nat) : String :=
+  if canonEq h roots out roots' then canon h roots
+  else if canon out roots' == canon h roots then "error:canon-text-collision"
+  else canon out roots'
+
+/-! ### Scalar columns: the part of the column conversion that is logic
+
+`get_columns_from` copies every data column with `setattr(dao, name, getattr(obj, name))`, `_collect_scalar_kwargs`
+copies it back: in memory (C04) every column kind is the identity. Under persistence (C05) the column TYPE converts:
+an enumeration is stored by member name and looked up again, a `type`-valued field is stored as `module.Class` by
+`TypeType.process_bind_param` and resolved by `process_result_value` (which guards with `is None`). What can go wrong
+in such code is logic, not arithmetic: a guard that tests truthiness instead of `is None` turns `0`, `0.0`, `""`,
+`False`, an `IntEnum` member with value 0 and `[]` into `None`; a lookup by value merges aliased members; a class stored
+by simple name resolves to a same-named class of another module. The conversion table is a PARAMETER (`Table`);
+`Props/C04Canon.lean: C04_scalars_preserved` is stated for any table that is lossless on the admissible values, and the
+instances below are the tables of today's code (lossless, proved) and of the traps (counter-examples, proved). -/
+
+inductive SVal where
+  | none
+  | bool (b : Bool)
+  | int (i : Int)
+  /-- a float by its `repr` -/
+  | float (repr : String)
+  | str (s : String)
+  /-- member of an enumeration: class, member name, value; `isInt`: an `IntEnum` (falsy when its value is 0) -/
+  | enum (cls name : String) (value : Int) (isInt : Bool)
+  /-- a class object -/
+  | type (module cls : String)
+  /-- the string `module.cls` (class names contain no dot, so `rsplit('.', 1)` inverts the concatenation) -/
+  | qual (module cls : String)
+  | strs (xs : List String)
+  /-- anything else (datetime, UUID, JSON values …): opaque text, converted by library code the model does not cover -/
+  | opaque (text : String)
+  deriving Repr, DecidableEq, Inhabited
+
+/-- Python's `bool(v)` -/
+def SVal.truthy : SVal → Bool
+  | .none => false
+  | .bool b => b
+  | .int i => i != 0
+  | .float r => !(r == "0.0" || r == "-0.0")
+  | .str s => s != ""
+  | .enum _ _ v isInt => !isInt || v != 0
+  | .type _ _ => true
+  | .qual _ _ => true
+  | .strs xs => !xs.isEmpty
+  | .opaque _ => true
+
+/-- what a column is declared as -/
+inductive ColKind where
+  | plain
+  | enumOf (cls : String)
+  | typeCol
+  deriving Repr, DecidableEq, Inhabited
+
+structure ColConv where
+  /-- object attribute ↦ what is stored (`get_columns_from`, then the column type's bind processor) -/
+  toCol : SVal → SVal
+  /-- what is stored ↦ constructor argument (result processor, then `_collect_scalar_kwargs`) -/
+  fromCol : SVal → SVal
+
+def ColConv.roundTrip (c : ColConv) (v : SVal) : SVal := c.fromCol (c.toCol v)
+
+abbrev Table := ColKind → ColConv
+
+/-- the scalars of one object through the table, column by column -/
+def convRecord (T : Table) (cols : List (ColKind × SVal)) : List (ColKind × SVal) :=
+  cols.map fun p => (p.1, (T p.1).roundTrip p.2)
+
+inductive Guard where
+  /-- `if value is None: return None` -/
+  | isNone
+  /-- `if not value: return None` — the trap -/
+  | truthy
+  deriving Repr, DecidableEq, Inhabited
+
+def guarded (g : Guard) (f : SVal → SVal) (v : SVal) : SVal :=
+  match g with
+  | .isNone => if v = .none then .none else f v
+  | .truthy => if v.truthy then f v else .none
+
+/-- members of the enumerations, in definition order: class ↦ [(name, value)]; `isInt` per class -/
+structure EnumEnv where
+  members : String → List (String × Int)
+  isInt : String → Bool
+
+def idConv : ColConv := ⟨id, id⟩
+
+/-- C04, today: no conversion, no guard, for every column kind -/
+def tableMem : Table := fun _ => idConv
+
+/-- the trap in memory: copying "only when there is a value" -/
+def tableMemTruthy : Table := fun _ => ⟨guarded .truthy id, id⟩
+
+def enumToName : SVal → SVal
+  | .enum _ n _ _ => .str n
+  | v => v
+
+def enumToValue : SVal → SVal
+  | .enum _ _ v _ => .int v
+  | v => v
+
+/-- `Cls[name]` -/
+def enumFromName (E : EnumEnv) (cls : String) : SVal → SVal
+  | .str n => match (E.members cls).lookup n with
+    | some v => .enum cls n v (E.isInt cls)
+    | none => .opaque "exc:KeyError"
+  | v => v
+
+/-- `Cls(value)`: the FIRST member with that value (later ones are aliases of it) -/
+def enumFromValue (E : EnumEnv) (cls : String) : SVal → SVal
+  | .int v => match (E.members cls).find? (·.2 == v) with
+    | some p => .enum cls p.1 v (E.isInt cls)
+    | none => .opaque "exc:ValueError"
+  | v => v
+
+/-- `module_and_class_name` / `TypeType.process_result_value`; `resolves m c`: importing `m` and `getattr(m, c)` gives
+the class back -/
+def typeToQual : SVal → SVal
+  | .type m c => .qual m c
+  | v => v
+
+def typeFromQual (resolves : String → String → Bool) : SVal → SVal
+  | .qual m c => if resolves m c then .type m c else .opaque "exc:AttributeError"
+  | v => v
+
+/-- C05, today: enumerations by member name, classes by qualified name; both guard with `is None` -/
+def tableSql (E : EnumEnv) (resolves : String → String → Bool) : Table
+  | .plain => idConv
+  | .enumOf cls => ⟨guarded .isNone enumToName, guarded .isNone (enumFromName E cls)⟩
+  | .typeCol => ⟨typeToQual, guarded .isNone (typeFromQual resolves)⟩
+
+/-- the same with enumerations stored by value -/
+def tableSqlByValue (E : EnumEnv) (resolves : String → String → Bool) : Table
+  | .enumOf cls => ⟨guarded .isNone enumToValue, guarded .isNone (enumFromValue E cls)⟩
+  | k => tableSql E resolves k
+
+/-- the same with truthiness guards -/
+def tableSqlTruthy (E : EnumEnv) (resolves : String → String → Bool) : Table
+  | .plain => ⟨guarded .truthy id, id⟩
+  | .enumOf cls => ⟨guarded .truthy enumToName, guarded .truthy (enumFromName E cls)⟩
+  | .typeCol => ⟨typeToQual, guarded .truthy (typeFromQual resolves)⟩
+
+/-- the value fits the declared column -/
+def Admissible (E : EnumEnv) (resolves : String → String → Bool) : ColKind → SVal → Prop
+  | .plain, v => (∀ c n x i, v ≠ .enum c n x i) ∧ (∀ m c, v ≠ .type m c)
+  | .enumOf cls, v => v = .none ∨ ∃ n x, v = .enum cls n x (E.isInt cls) ∧ (E.members cls).lookup n = some x
+  | .typeCol, v => ∃ m c, v = .type m c ∧ resolves m c = true
+
+/-! scalar text of a case line ↔ `SVal` (what the driver needs to push the generated values through a table) -/
+
+/-- the enumerations the harness generates: the dataset's `Element` and the auxiliary `AuxMode(IntEnum)` -/
+def driverEnums : EnumEnv :=
+  { members := fun c => if c == "Element" then [("C", 1), ("H", 2)]
+                        else if c == "AuxMode" then [("OFF", 0), ("ON", 1), ("AUTO", 2)] else [],
+    isInt := fun c => c == "AuxMode" }
+
+/-- one encoded value (`harness/props/dao_common.py: enc`) with the kind of column it sits in -/
+def parseTok (E : EnumEnv) (tok : String) : ColKind × SVal :=
+  let body := (tok.drop 1).toString
+  if tok == "N" then (.plain, .none)
+  else if tok == "bT" then (.plain, .bool true)
+  else if tok == "bF" then (.plain, .bool false)
+  else if tok.startsWith "i" then
+    match body.toInt? with
+    | some i => (.plain, .int i)
+    | none => (.plain, .opaque tok)
+  else if tok.startsWith "f" then (.plain, .float body)
+  else if tok.startsWith "s" then (.plain, .str body)
+  else if tok.startsWith "e" then
+    match body.splitOn "." with
+    | [c, n] => match (E.members c).lookup n with
+      | some v => (.enumOf c, .enum c n v (E.isInt c))
+      | none => (.plain, .opaque tok)
+    | _ => (.plain, .opaque tok)
+  else if tok.startsWith "T" then (.typeCol, .type "" body)
+  else if tok == "[]" then (.plain, .strs [])
+  else (.plain, .opaque tok)
+
+/-- the values of `name=tok,name=tok…` (tokens never contain commas) -/
+def parseScal (E : EnumEnv) (text : String) : List (ColKind × SVal) :=
+  (splitScal text).map fun part => parseTok E ((part.splitOn "=").drop 1 |> "=".intercalate)
+
+/-- does the table return every scalar of this object unchanged? -/
+def scalarsKept (T : Table) (E : EnumEnv) (text : String) : Bool :=
+  let cols := parseScal E text
+  decide (convRecord T cols = cols)
+
 /-! ### The relational store -/
 
 inductive Dir where
